@@ -271,6 +271,36 @@ def check_type_probes():
                 out.append(('accepts-invalid/%s/data-%s' % (how, name), {'typeprobe': [how, name]},
                             '%s with data from a one-shot %s (%r) returned %s' % (
                                 how, name, list(mk()), core.srepr(m))))
+    # every spelling of "change the data of a sysex message" is checked
+    for bad in ([200], [2.5], [None], ['a'], [-1], [1, 300], bytearray(b'\xc8')):
+        for how, f in (('data = data + x', lambda m: setattr(m, 'data', m.data + tuple(bad))),
+                       ('data = x + data', lambda m: setattr(m, 'data', list(bad) + list(m.data))),
+                       ('data = SysexData(x)', lambda m: setattr(m, 'data', type(m.data)(bad))),
+                       ('data += x', lambda m: m.__setattr__('data', m.data.__iadd__(bad))),
+                       ('data = data * 1 + x', lambda m: setattr(m, 'data', m.data * 1 + tuple(bad))),
+                       ('copy(data=data + x)', lambda m: m.copy(data=m.data + tuple(bad)))):
+            m = mido.Message('sysex', data=(1, 2))
+            try:
+                r = f(m)
+            except Exception:
+                if list(m.data) != [1, 2]:
+                    out.append(('rejected-but-changed/sysex-data', {'typeprobe': [how, repr(bad)]},
+                                '%s with x=%r raised but data is now %r' % (how, bad, m.data)))
+                continue
+            res = r if r is not None else m
+            out.append(('accepts-invalid/sysex-data/' + how.replace(' ', ''), {'typeprobe': [how, repr(bad)]},
+                        '%s with x=%r was accepted: %s' % (how, bad, core.srepr(res))))
+    for good in ([3], (3, 127), bytearray(b'\x05')):
+        m = mido.Message('sysex', data=(1, 2))
+        try:
+            m.data = m.data + tuple(good)
+            m.data += good
+            ok = list(m.data) == [1, 2] + list(good) * 2 and type(m.data).__name__ == 'SysexData'
+        except Exception as e:
+            ok = False
+        if not ok:
+            out.append(('rejects-valid/sysex-data', {'typeprobe': ['append', repr(good)]},
+                        'appending %r to sysex data failed (%s)' % (good, core.srepr(m))))
     m = mido.Message('note_on')
     for bt in (0x90, 'note_off', None):
         try:
